@@ -292,7 +292,7 @@ func (cw *c07World) judge(c *Ctx, batchIDs map[int]string, expected map[string]m
 }
 
 func checkC07(c *Ctx) {
-	c.Rule = "bounded progress: for n=3,t=2 and two batches, ALL causally feasible board orders of the primary messages (proposals, answers; every choice of the answering set with >= t members per batch; answers may trail into and beyond the next batch) are played with eager polling on one world rewound by snapshots; reconstruction broadcasts follow from the nodes themselves. Seeded sampling beyond: (n,t) in {(2,2),(3,3),(4,2),(4,3),(5,3)}, three batches, random orders, lazy polling with random splits, random slow sets. At quiescence every node must be signing-idle and store a prysm-valid signature for every message of every batch that received >= t answers. Further families: two rounds on the same nodes; proposer clocks minutes/hours ahead of or behind the answerers'; ordinary batches after a proposal over an empty baked range. Identifiers of an earlier batch used again (same baked window twice; per-batch numbering). distinct = distinct board orders played"
+	c.Rule = "bounded progress: for n=3,t=2 and two batches, ALL causally feasible board orders of the primary messages (proposals, answers; every choice of the answering set with >= t members per batch; answers may trail into and beyond the next batch) are played with eager polling on one world rewound by snapshots; reconstruction broadcasts follow from the nodes themselves. Seeded sampling beyond: (n,t) in {(2,2),(3,3),(4,2),(4,3),(5,3)}, three batches, random orders, lazy polling with random splits, random slow sets. At quiescence every node must be signing-idle and store a prysm-valid signature for every message of every batch that received >= t answers. Further families: two rounds on the same nodes; proposer clocks minutes/hours ahead of or behind the answerers'; ordinary batches after a proposal over an empty baked range. A batch whose proposer goes offline right after proposing (judged on the others while it is away, on everybody after it caught up). Identifiers of an earlier batch used again (same baked window twice; per-batch numbering). distinct = distinct board orders played"
 	c.Assumptions = []string{"participants are slow, not wrong (no junk shares)", "MemState; cold machines are stateless for signing"}
 	// exhaustive part
 	sets := sched.Subsets(3, 2)
@@ -437,6 +437,7 @@ func checkC07(c *Ctx) {
 	c07SkewedClocks(c)
 	c07DegenerateProposals(c)
 	c07SameIdsAgain(c)
+	c07ProposerOffline(c)
 	// sampled part
 	cfgs := []ntCase{{2, 2}, {3, 3}, {4, 2}, {4, 3}, {5, 3}}
 	per := c.Pick(12, 400)
@@ -828,4 +829,104 @@ func c07SameIdsAgain(c *Ctx) {
 			}
 		}
 	})
+}
+
+// c07ProposerOffline: "every node that keeps polling" - the proposer of a batch need not be one of them.
+// The proposer posts the proposal and goes offline (its node neither answers nor polls, so its own
+// reconstruction broadcast never comes); the others answer and keep polling: each of them must hold a valid
+// signature for every message. Then the proposer comes back and catches up; a later batch proposed by
+// somebody else is signed as usual.
+func c07ProposerOffline(c *Ctx) {
+	cases := [][2]int{{3, 2}, {4, 3}, {4, 2}, {3, 2}}
+	for rep := 0; rep < c.Pick(4, 12); rep++ {
+		func() {
+			n, t := cases[rep%len(cases)][0], cases[rep%len(cases)][1]
+			seed := c.Seed*733 + uint64(rep)
+			cw, err := newC07World(seed, n, t)
+			if err != nil {
+				c.Inconclusive("proposer-offline world: %v", err)
+				return
+			}
+			defer cw.ce.Close()
+			w := cw.ce.W
+			p := rep % n
+			wit := map[string]interface{}{"family": "the proposer goes offline after proposing", "n": n, "t": t, "proposer": p, "case_seed": seed}
+			pollOthers := func(skip int) {
+				for round := 0; round < 40; round++ {
+					progressed := false
+					for _, nd := range w.Nodes {
+						if nd.Idx != skip && int(nd.Offset()) < w.Board.Len() {
+							_, _ = nd.PollStep(0)
+							progressed = true
+						}
+					}
+					if !progressed {
+						return
+					}
+				}
+			}
+			judge := func(when string, bid string, msgs []ExpectedMsg, skip int) {
+				for _, nd := range w.Nodes {
+					if nd.Idx == skip {
+						continue
+					}
+					store := SigStore(nd, cw.ce.Round)
+					for _, m := range msgs {
+						valid := false
+						for _, e := range store[bid][m.ID] {
+							if len(e.Signature) > 0 {
+								if ok, _ := oracle.VerifyG2(cw.key, m.Payload, e.Signature); ok {
+									valid = true
+								}
+							}
+						}
+						if !valid {
+							c.Violate("C07/batch-with-t-answers-not-reconstructed", fmt.Sprintf("%s: %s kept polling and holds no valid signature for message %s of the batch, which received %d >= t=%d answers", when, nd.Name, m.ID, n-1, t), wit)
+							return
+						}
+					}
+					if st := NodeState(nd, cw.ce.Round); st != StIdle {
+						c.Violate("C07/node-not-idle-at-quiescence", fmt.Sprintf("%s: %s is in %s", when, nd.Name, st), wit)
+					}
+				}
+			}
+			runBatch := func(k, proposer, offline int) (string, []ExpectedMsg, bool) {
+				before := w.Board.Len()
+				if e := w.ProposeSign(proposer, cw.ce.Round, c07BatchData(k), nil); e != nil {
+					c.Inconclusive("proposer-offline world: proposal refused: %v", e)
+					return "", nil, false
+				}
+				bid, msgs, _ := ExpandProposal(w.Board.All()[before].Data)
+				pollOthers(offline)
+				for _, nd := range w.Nodes {
+					if nd.Idx == offline {
+						continue
+					}
+					for _, o := range w.PendingOps(nd) {
+						if string(o.Type) == OpSigning && opBatchID(o) == bid {
+							_ = w.HandleOp(nd, o)
+						}
+					}
+					pollOthers(offline)
+				}
+				pollOthers(offline)
+				return bid, msgs, true
+			}
+			bid, msgs, ok := runBatch(1, p, p)
+			if !ok {
+				return
+			}
+			c.Eval(1)
+			c.Add("batches_whose_proposer_went_offline", 1)
+			c.Distinct(fmt.Sprintf("proposer-offline|n%d t%d p%d", n, t, p))
+			judge("while the proposer is offline", bid, msgs, p)
+			// the proposer comes back (it never answers the old batch: its operation stays unanswered)
+			pollOthers(-1)
+			judge("after the proposer caught up", bid, msgs, -1)
+			bid2, msgs2, ok := runBatch(2, (p+1)%n, -1)
+			if ok {
+				judge("next batch, everybody online", bid2, msgs2, -1)
+			}
+		}()
+	}
 }
